@@ -25,6 +25,9 @@ protected:
   std::deque<std::string> tokens_;
   std::deque<std::string> splits_;
 
+  /** @brief The delimiters found before the first token (they do not give a token). */
+  std::string leading_;
+
   /** @brief the current position in the token list. */
   size_t currentPosition_;
 
@@ -42,7 +45,7 @@ public:
   virtual ~StringTokenizer() {}
 
 public:
-  StringTokenizer() : tokens_(), splits_(), currentPosition_(0) {}
+  StringTokenizer() : tokens_(), splits_(), leading_(), currentPosition_(0) {}
 
 public:
   /**
